@@ -248,6 +248,24 @@ class Engine:
             st.assume(n >= 0)
             get = self.fresh_elemfn(et, base, st)
             return st.alloc(HSeq(n, get, numpy=(k == "arr"), etype=et))
+        if k == "ghostfn":
+            dom, rng = t.args
+            f = z3.Function(fresh_name(base), dom, rng)
+            g = VConc("ghostfn", lambda q, f=f: f(q))
+            g.gtype = t
+            return g
+        if k == "dict":
+            kt, vt, ordered = t.args
+            ks = Label if kt.kind == "label" else z3.IntSort()
+            nm = fresh_name(base)
+            has = z3.Function(nm + ".has", ks, z3.BoolSort())
+            if vt.kind == "int":
+                vf = z3.Function(nm + ".val", ks, z3.IntSort())
+                val = lambda q: VInt(vf(q))
+            else:
+                raise Unsupported("fresh dict with values %r" % (vt,))
+            keys = self.fresh(T.list(kt), base + ".keys", st) if ordered else None
+            return st.alloc(HDict(lambda q: has(q), val, keys, kt, vt))
         if k == "arr2":
             et = t.args[0]
             nr = z3.Int(fresh_name(base + ".rows"))
@@ -1036,6 +1054,8 @@ class Engine:
             self.assign(tgt, v, st, node)
             if isinstance(tgt, ast.Name) and self.cur is not None and tgt.id in self.cur.hooks:
                 self.cur.hooks[tgt.id](Spec(self, st), st)
+            if isinstance(tgt, ast.Subscript) and isinstance(tgt.value, ast.Name) and self.cur is not None and (tgt.value.id + "[]") in self.cur.hooks:
+                self.cur.hooks[tgt.value.id + "[]"](Spec(self, st), st)
         return K["next"](st)
 
     def ex_AugAssign(self, node, st, K):
@@ -1434,6 +1454,7 @@ class Engine:
         tnames, _ = self.assigned_names([ast.Assign(targets=[node.target], value=ast.Constant(0))])
         if spec.modifies is not None:
             names = set(spec.modifies) | tnames
+        names |= set(getattr(spec, "ghost", ()))
         # --- arbitrary iteration
         s1 = st.fork()
         self.havoc(s1, (names | tnames) - {idx, "__i"}, heapmut, spec, "L%d" % ordn)
